@@ -88,6 +88,11 @@ def cases(thorough):
             for seq in ([A, A], [A, B], [A, Cc], [A, D], [D, A], [E, E], [A, E, A], [B, A, A]):
                 yield dict(base, block="S", sequence=[dict(x) for x in seq])
         if ndim == 3:
+            # block T: 'top' and 'side' views, alone and with a later layer from another Datagroup
+            for d in ("top", "side", "TOP"):
+                for w in (1.0, 0.5):
+                    for sg in (False, True):
+                        yield dict(base, block="T", dx=w, resolution=3, direction=d, origin=origins[0], second_group=sg)
             # block C: oblique normals (every lattice direction) and VectorBasis, deviations from the baseline window
             nsel = normals if thorough else normals[::5]
             for n in nsel:
